@@ -426,9 +426,11 @@ func rulePOISON1(c *Ctx) {
 		c.Undecide("jsontext.(*objectNameStack).copyQuotedBuffer / invalidateBufferByte", "missing")
 		return
 	}
-	info := f.Info()
 	n := 0
-	InspectNoLit(f.Body(), func(nd ast.Node) bool {
+	subject := f
+	// the per-name work may have been moved into a private helper of copyQuotedBuffer
+	p.InspectScope(subject, func(f *FuncInfo, nd ast.Node) bool {
+		info := f.Info()
 		as, ok := nd.(*ast.AssignStmt)
 		if !ok || len(as.Lhs) != 1 || len(as.Rhs) != 1 {
 			return true
@@ -457,8 +459,8 @@ func rulePOISON1(c *Ctx) {
 					inLoop = true
 				}
 			}
-			if !inLoop {
-				continue
+			if !inLoop && f == subject {
+				continue // a condition outside the per-name loop is not about this name
 			}
 			be, ok := ast.Unparen(cc.cond).(*ast.BinaryExpr)
 			if ok && be.Op == token.EQL && cc.then && exprString(be.X) == exprString(ix) && IdentObj(info, be.Y) == poison {
